@@ -70,6 +70,9 @@ def groups(tier, seed):
     for lo in range(0, len(CAPS), 7):
         yield {'kind': 'caps', 'range': [lo, min(lo + 7, len(CAPS))]}
     yield {'kind': 'xattr'}
+    if tier == 'thorough':
+        for i in range(len(CAPS)):
+            yield {'kind': 'cap-pairs', 'first': i}
     for root in ('dot', 'rel', 'abs', 'relslash'):
         yield {'kind': 'location', 'root': root}
     for cls in ('is_archive', 'is_audio', 'is_book', 'is_doc', 'is_font', 'is_image', 'is_source', 'is_video'):
@@ -89,7 +92,12 @@ def content_lengths(tier):
     ls = [0, 1, 2, 3]
     for k in range(10, 18):
         ls += [2 ** k - 1, 2 ** k, 2 ** k + 1]
-    return ls
+    if tier == 'thorough':
+        ls = list(range(0, 71))
+        for k in range(7, 21):
+            ls += [2 ** k - 2, 2 ** k - 1, 2 ** k, 2 ** k + 1, 2 ** k + 2]
+        ls += [3 * 8192, 3 * 8192 + 1, 5 * 32768 - 1, 100000, 1000003]
+    return sorted(set(ls))
 
 
 def row_outcomes(group, rows, expected, cols, outs, layer):
@@ -262,6 +270,20 @@ def eval_group(env, group, tier):
                         e2[n] = (b(has), b(has))
                 g2 = dict(group, cap=cname)
                 row_outcomes(g2, rows, e2, ['has_cap', 'has_capability'], outs, 'has_cap')
+        elif kind == 'cap-pairs':
+            i = group['first']
+            tree, exp = {}, {}
+            for j in range(len(CAPS)):
+                if j == i:
+                    continue
+                n = 'p%02d_%02d' % (i, j)
+                tree[n] = F(1, xattr={'security.capability': cap_xattr(j % 2, (1 << i) | (1 << j), (1 << j) if j % 3 == 0 else 0)})
+                e = 'e' if j % 2 else ''
+                parts = {i: CAPS[i] + '=' + e + 'p', j: CAPS[j] + '=' + e + ('ip' if j % 3 == 0 else 'p')}
+                exp[n] = (' '.join(parts[k] for k in sorted(parts)),)
+            core.materialise(root, tree)
+            rows = query_rows(env, root, ['capabilities'])
+            row_outcomes(group, rows, exp, ['capabilities'], outs, 'cap-pairs')
         elif kind == 'xattr':
             tree = {'plain': F(1), 'one': F(1, xattr={'user.test': b'hello'}), 'two': F(1, xattr={'user.a': b'1', 'user.b': b'x y'}),
                     'empty': F(1, xattr={'user.test': b''}), 'utf8': F(1, xattr={'user.test': 'héllo'.encode()}),
